@@ -68,14 +68,14 @@ func registerProps() {
 	}
 	propTable["C11"] = PropDef{
 		Title:       "Collections (and buckets) are isolated from one another",
-		Rules:       []string{"R-COLL", "R-KEYSPACE", "R-DROP", "R-FEEDMAP", "R-EXP-SQL", "R-DSN"},
-		Explanation: "Complete for SQL-mediated state: every statement variant of every collection method constrains every collection-owned table it ranges over (ownership from schema.sql foreign keys) to the receiver's id (R-COLL, R-KEYSPACE, R-EXP-SQL); dropping is keyed by scope and name, cascades through every ownership foreign key (enforced: _foreign_keys=1, R-DSN) and ids are never reused (R-DROP); feeds are registered and stopped under the collection's own name and the shared registry is never replaced (R-FEEDMAP).",
+		Rules:       []string{"R-COLL", "R-KEYSPACE", "R-DROP", "R-FEEDMAP", "R-EXP-SQL", "R-DSN", "R-LASTID"},
+		Explanation: "Complete for SQL-mediated state: every statement variant of every collection method constrains every collection-owned table it ranges over (ownership from schema.sql foreign keys) to the receiver's id (R-COLL, R-KEYSPACE, R-EXP-SQL); dropping is keyed by scope and name, cascades through every ownership foreign key (enforced: _foreign_keys=1, R-DSN) and ids are never reused (R-DROP); feeds are registered and stopped under the collection's own name and the shared registry is never replaced (R-FEEDMAP). A collection's id is the id of the row its own INSERT created (R-LASTID).",
 		NotDecided:  "caller-supplied SQL beyond the keyspace envelope; CreateIndex (bucket-wide by documentation).",
 	}
 	propTable["C12"] = PropDef{
 		Title:       "A non-stale view query equals the map function applied to the current documents",
-		Rules:       []string{"R-VIEW", "R-VIEW-MARK", "R-COLL", "R-DROP", "R-ONE-TXN", "R-TXN", "R-VIEW-PARAMS", "R-HLC", "R-FRESH-DECODE"},
-		Explanation: "The incremental index update selects documents above the last indexed CAS, which is complete only if CAS order is commit order: the CAS is drawn inside the transaction closure under the bucket mutex (R-HLC/CALL). Every honoured query option is still read (R-VIEW-PARAMS). In the index-update closure the obsolete-row delete and the re-map select use the same comparator on documents.cas and the same bound mark, and the view's mark is set to the collection mark read through the same transaction (R-VIEW, R-TXN); every transaction that changes a document advances the collection mark (R-VIEW-MARK); the row query orders by (mapped.key, documents.key) in one direction with the range operators paired to min/max (R-VIEW); the compiled map function is reused from the cache only when its source is unchanged (R-VIEW); replacing a design document is one transaction whose delete precedes the inserts (R-VIEW, R-ONE-TXN); index rows are scoped and cascade (R-COLL, R-DROP). The map function's input is decoded into fresh variables for every document (R-FRESH-DECODE).",
+		Rules:       []string{"R-VIEW", "R-VIEW-MARK", "R-COLL", "R-DROP", "R-ONE-TXN", "R-TXN", "R-VIEW-PARAMS", "R-HLC", "R-FRESH-DECODE", "R-VIEW-STALE", "R-LASTID"},
+		Explanation: "The incremental index update selects documents above the last indexed CAS, which is complete only if CAS order is commit order: the CAS is drawn inside the transaction closure under the bucket mutex (R-HLC/CALL). Every honoured query option is still read (R-VIEW-PARAMS). In the index-update closure the obsolete-row delete and the re-map select use the same comparator on documents.cas and the same bound mark, and the view's mark is set to the collection mark read through the same transaction (R-VIEW, R-TXN); every transaction that changes a document advances the collection mark (R-VIEW-MARK); the row query orders by (mapped.key, documents.key) in one direction with the range operators paired to min/max (R-VIEW); the compiled map function is reused from the cache only when its source is unchanged (R-VIEW); replacing a design document is one transaction whose delete precedes the inserts (R-VIEW, R-ONE-TXN); index rows are scoped and cascade (R-COLL, R-DROP). The map function's input is decoded into fresh variables for every document (R-FRESH-DECODE). The index is brought up to date before the rows are read unless one of the documented stale values was given (R-VIEW-STALE); the index window has no upper CAS bound (R-VIEW).",
 		NotDecided:  "JavaScript map/reduce evaluation, the collation function, parameter post-processing in sg-bucket.",
 	}
 	propTable["C13"] = PropDef{
@@ -92,14 +92,14 @@ func registerProps() {
 	}
 	propTable["C15"] = PropDef{
 		Title:       "Checkpointed feeds resume without skipping a mutation",
-		Rules:       []string{"R-CHECKPOINT", "R-ATOMIC-ENQ", "R-BACKFILL", "R-BACKFILL-GAP", "R-QUEUE", "R-BACKFILL-COND", "R-FEEDMAP-WRITERS", "R-EVT-FEEDEVENT", "R-HLC"},
-		Explanation: "Resume starts at checkpoint+1 with an inclusive lower bound (R-CHECKPOINT, R-BACKFILL); the feed loop advances its delivered-CAS only from the event just passed to the callback and only upwards, and persists exactly that field (R-CHECKPOINT); its premise, CAS-ordered delivery, needs FIFO queues, enqueue inside the commit's critical section and a backfill that is not interleaved with live events (R-QUEUE, R-ATOMIC-ENQ, R-BACKFILL-GAP). The snapshot is unconditional given the arguments (R-BACKFILL-COND); registry entries are only appended to and the fan-out withholds no event from a registered feed (R-FEEDMAP-WRITERS, R-EVT-FEEDEVENT); CAS order is commit order because the CAS is drawn inside the transaction closure (R-HLC).",
+		Rules:       []string{"R-CHECKPOINT", "R-ATOMIC-ENQ", "R-BACKFILL", "R-BACKFILL-GAP", "R-QUEUE", "R-BACKFILL-COND", "R-FEEDMAP-WRITERS", "R-EVT-FEEDEVENT", "R-HLC", "R-ROWCOMPLETE"},
+		Explanation: "Resume starts at checkpoint+1 with an inclusive lower bound (R-CHECKPOINT, R-BACKFILL); the feed loop advances its delivered-CAS only from the event just passed to the callback and only upwards, and persists exactly that field (R-CHECKPOINT); its premise, CAS-ordered delivery, needs FIFO queues, enqueue inside the commit's critical section and a backfill that is not interleaved with live events (R-QUEUE, R-ATOMIC-ENQ, R-BACKFILL-GAP). The snapshot is unconditional given the arguments (R-BACKFILL-COND); registry entries are only appended to and the fan-out withholds no event from a registered feed (R-FEEDMAP-WRITERS, R-EVT-FEEDEVENT); CAS order is commit order because the CAS is drawn inside the transaction closure (R-HLC). Every mutation refreshes the row's CAS, so a resume from (mark + 1) selects it (R-ROWCOMPLETE).",
 		NotDecided:  "the union-of-runs behaviour itself.",
 	}
 	propTable["C16"] = PropDef{
 		Title:       "Feeds terminate cleanly and independently",
-		Rules:       []string{"R-DONE", "R-FEED-START", "R-LOOPVAR", "R-QUEUE", "R-SHUTDOWN", "R-FEEDMAP", "R-FEEDMAP-WRITERS", "R-GUARDED", "R-WAIT-LOCK"},
-		Explanation: "The feed loop closes its done channel by a deferred close guarded only by 'channel is non-nil', starts its terminator goroutine whenever a terminator is given, and calls the callback only for non-nil events; per-collection done channels are fresh, passed to their feed, and coalesced by one goroutine that does not capture a loop variable (R-DONE, R-LOOPVAR); every started feed is registered or has its end marker (R-FEED-START); close wakes the puller (R-QUEUE); shutdown walks the shared registry before closing the database (R-SHUTDOWN); stopping a collection's feeds touches only its own registry entry (R-FEEDMAP); the registry is accessed under the bucket mutex (R-GUARDED). Registry entries are only appended to, never edited in place (R-FEEDMAP-WRITERS); no lock needed by the feed goroutine is held while waiting for it (R-WAIT-LOCK); a closed queue yields nothing (R-QUEUE).",
+		Rules:       []string{"R-DONE", "R-FEED-START", "R-LOOPVAR", "R-QUEUE", "R-SHUTDOWN", "R-FEEDMAP", "R-FEEDMAP-WRITERS", "R-GUARDED", "R-WAIT-LOCK", "R-REGISTRY"},
+		Explanation: "The feed loop closes its done channel by a deferred close guarded only by 'channel is non-nil', starts its terminator goroutine whenever a terminator is given, and calls the callback only for non-nil events; per-collection done channels are fresh, passed to their feed, and coalesced by one goroutine that does not capture a loop variable (R-DONE, R-LOOPVAR); every started feed is registered or has its end marker (R-FEED-START); close wakes the puller (R-QUEUE); shutdown walks the shared registry before closing the database (R-SHUTDOWN); stopping a collection's feeds touches only its own registry entry (R-FEEDMAP); the registry is accessed under the bucket mutex (R-GUARDED). Registry entries are only appended to, never edited in place (R-FEEDMAP-WRITERS); no lock needed by the feed goroutine is held while waiting for it (R-WAIT-LOCK); a closed queue yields nothing (R-QUEUE). Deleting the bucket shuts the shared store (feeds, timer) down first, whatever the state of the calling handle (R-REGISTRY).",
 		NotDecided:  "actual goroutine exit, starvation under load.",
 	}
 	propTable["C17"] = PropDef{
@@ -123,8 +123,8 @@ func registerProps() {
 	}
 	propTable["C20"] = PropDef{
 		Title:       "Shutdown is safe: no panic, deadlock or leaked goroutine at any timing",
-		Rules:       []string{"R-LOCK-PAIR", "R-LOCK-ORDER", "R-GUARDED", "R-TXN-READS", "R-SHUTDOWN", "R-CLOSED", "R-FEEDMAP", "R-BG-PANIC", "R-TIMER", "R-DONE", "R-LOOPVAR", "R-WAIT-LOCK"},
-		Explanation: "No lock is left held on any path (R-LOCK-PAIR); the lock-order graph computed from must-hold locksets and transitive may-acquire summaries is acyclic (R-LOCK-ORDER) and nothing inside a transaction re-enters the bucket mutex (R-TXN-READS); maps and the closed flag are accessed under their mutex (R-GUARDED: a concurrent map access is a fatal error); shutdown order (R-SHUTDOWN); the DB handle is never reset and is used only behind the closed test (R-CLOSED); the feed registry is never replaced (R-FEEDMAP); no explicit panic is reachable from a goroutine root or timer callback except the converter's assertions (R-BG-PANIC); the done channel of a feed is closed once (R-DONE, R-LOOPVAR: a second close panics in a library goroutine); only one expiry timer is ever pending, so stop() cancels it (R-TIMER). No lock needed by a goroutine is held while waiting for that goroutine to close a channel (R-WAIT-LOCK).",
+		Rules:       []string{"R-LOCK-PAIR", "R-LOCK-ORDER", "R-GUARDED", "R-TXN-READS", "R-SHUTDOWN", "R-CLOSED", "R-FEEDMAP", "R-BG-PANIC", "R-TIMER", "R-DONE", "R-LOOPVAR", "R-WAIT-LOCK", "R-COMMIT"},
+		Explanation: "No lock is left held on any path (R-LOCK-PAIR); the lock-order graph computed from must-hold locksets and transitive may-acquire summaries is acyclic (R-LOCK-ORDER) and nothing inside a transaction re-enters the bucket mutex (R-TXN-READS); maps and the closed flag are accessed under their mutex (R-GUARDED: a concurrent map access is a fatal error); shutdown order (R-SHUTDOWN); the DB handle is never reset and is used only behind the closed test (R-CLOSED); the feed registry is never replaced (R-FEEDMAP); no explicit panic is reachable from a goroutine root or timer callback except the converter's assertions (R-BG-PANIC); the done channel of a feed is closed once (R-DONE, R-LOOPVAR: a second close panics in a library goroutine); only one expiry timer is ever pending, so stop() cancels it (R-TIMER). No lock needed by a goroutine is held while waiting for that goroutine to close a channel (R-WAIT-LOCK). The runner touches the transaction object only after a successful Begin (R-COMMIT).",
 		NotDecided:  "absence of goroutine leaks and of run-time panics in general (nil dereferences, index errors); timing.",
 	}
 	// rules that are named above but not implemented yet are dropped from the lists, so that
